@@ -17,7 +17,7 @@ from ..execu import run
 from ..runner import short
 
 ID = "C14"
-N = {"quick": 6000, "thorough": 300000}
+N = {"quick": 40000, "thorough": 300000}
 TIME_BUDGET = {"quick": 45, "thorough": 480}
 MIN_NONTRIVIAL = {"quick": 300, "thorough": 3000}
 RULE = ("cases = a Schema (94%) or DataClass (6%) with 1-5 fields over the listed types (int, float, str, bool, Optional, UTF-8 "
